@@ -65,12 +65,20 @@ Definition sup_coll (infield : bool) (t : ty) : bool :=
   | _ => false
   end.
 
+(* a named slice / map type used as a field type: its body must be a supported ROOT collection *)
+Definition named_coll_body (t : ty) : option ty :=
+  match t with TNamed _ (TSlice e) => Some (TSlice e) | TNamed _ (TMap k v) => Some (TMap k v) | _ => None end.
+
 Definition sup_field (t : ty) : bool :=
   scalar_or_ptr_scalar t || struct_or_ptr_struct t ||
   (is_named_scalar t && negb (is_named_string t)) ||
-  match t with
-  | TPtr t' => if is_bytes t' then false else sup_coll true t'
-  | _ => sup_coll true t
+  match named_coll_body (strip_ptr t) with
+  | Some b => negb (is_bytes b) && sup_coll false b
+  | None =>
+    match t with
+    | TPtr t' => if is_bytes t' then false else sup_coll true t'
+    | _ => sup_coll true t
+    end
   end.
 
 (* a root declaration: a struct with supported fields, or a named map / slice *)
@@ -119,7 +127,11 @@ Definition units_of_shapes (start : nat) (l : list ty) : list (string * ty) :=
 Definition multi : list ty :=
   [TStruct [("A", t_int32); ("M", TMap t_string t_int32); ("L", TSlice leaf); ("P", TPtr leaf); ("S", t_string); ("B", t_bytes)];
    TStruct [("X", TPtr t_string); ("Y", TSlice (TPtr t_int32)); ("Z", TMap (TScalar (SInt KInt)) (TPtr leaf)); ("W", TPtr (TSlice t_string))];
-   TStruct [("N", leaf); ("K", kind); ("Q", TPtr (TMap t_string leaf)); ("R", TMap t_string (TMap t_int32 t_string))]].
+   TStruct [("N", leaf); ("K", kind); ("Q", TPtr (TMap t_string leaf)); ("R", TMap t_string (TMap t_int32 t_string))];
+   (* fields of NAMED slice and map types (like testobj's TestFloatSlice, TestStructSliceLiteral, TestStringFloatMap) *)
+   TStruct [("NS", TNamed "NInts" (TSlice t_int32)); ("NL", TNamed "NLeaves" (TSlice leaf));
+            ("NP", TNamed "NLeafPtrs" (TSlice (TPtr leaf))); ("NM", TNamed "NFlags" (TMap t_string t_int32));
+            ("NML", TNamed "NLeafMap" (TMap t_string (TPtr leaf))); ("PNS", TPtr (TNamed "NFloats" (TSlice (TScalar SF64))))]].
 
 Definition rep_shapes : list ty :=
   dedup_ty (shapes1 rep_skinds ++ shapes2 [SString; SInt KInt32] [SInt KInt32; SString]).
